@@ -43,6 +43,11 @@ func sweepC15(tier string) []Stratum {
 			out = append(out, base(fi, 1, 1, 1<<uint(a)))
 			for b := a + 1; b < 23; b++ {
 				out = append(out, base(fi, 1, 1, 1<<uint(a)|1<<uint(b)))
+				if tier == "thorough" {
+					for c := b + 1; c < 23; c++ {
+						out = append(out, base(fi, 1, 1, 1<<uint(a)|1<<uint(b)|1<<uint(c)))
+					}
+				}
 			}
 		}
 	}
